@@ -444,8 +444,12 @@ def close(a, b, scale):
     return abs(a - b) <= 1e-9 * max(abs(a), abs(b), scale)
 
 
-def check_call(model, call, got, zooms_in_file):
-    """-> list of (class, site, detail-extras)"""
+OOB_PROBE = 31337.125
+
+
+def check_call(model, call, got, zooms_in_file, recall=None):
+    """-> list of (class, site, detail-extras). `recall(oob)` repeats the call with another finite `oob`
+    (used only to tell a NaN that is the out-of-bounds fill from a NaN that was computed)."""
     kind = model.kind
     L = model.L
     s, e = call["s"], call["e"]
@@ -503,6 +507,7 @@ def check_call(model, call, got, zooms_in_file):
         rng_ = model.data_range(s, e)
     scale = max(abs(rng_[0]), abs(rng_[1])) if rng_ else 0.0
     seen = set()
+    cache = {}
 
     def add(cls, site, i, extra):
         if (cls, site) in seen:
@@ -525,6 +530,20 @@ def check_call(model, call, got, zooms_in_file):
         # allowed NaN?
         nan_ok = nan_missing or (nan_oob and not wholly_in)
         if math.isnan(g) and not nan_ok:
+            if nan_oob and recall is not None:
+                # is this NaN the (NaN) oob fill written into a bin that lies wholly inside the chromosome?
+                if "probe" not in cache:
+                    try:
+                        cache["probe"] = recall(OOB_PROBE)
+                    except BaseException as ex:  # noqa
+                        if isinstance(ex, KeyboardInterrupt):
+                            raise
+                        cache["probe"] = None
+                pr = cache["probe"]
+                if pr is not None and len(pr) == bins and float(pr[i]) == OOB_PROBE:
+                    add("oob_fill_wrong", "%s:bins:%s:inside_bin_is_oob" % (kind, wtag), i,
+                        dict(note="the bin lies wholly inside the chromosome but holds the out-of-bounds fill (confirmed by repeating the call with oob=%r)" % OOB_PROBE))
+                    continue
             add("nan_in_bins", "%s:%s:%s" % (kind, wtag, path), i, dict(note="NaN although missing is finite and the bin does not touch the out-of-bounds region" if wholly_in else "NaN although both fills are finite"))
             continue
         if integral and not zoom_used:
@@ -551,6 +570,10 @@ def check_call(model, call, got, zooms_in_file):
         if same(g, missing):
             continue
         if not wholly_in and same(g, oob):
+            continue
+        if wholly_in and same(g, oob) and not (rng_ is not None and rng_[0] <= g <= rng_[1]):
+            add("oob_fill_wrong", "%s:bins:%s:inside_bin_is_oob" % (kind, wtag), i,
+                dict(note="the bin lies wholly inside the chromosome but holds the out-of-bounds fill"))
             continue
         if rng_ is not None and not math.isnan(g):
             # zoom records carry their sum as f32: allow for that on the zoom path
@@ -628,6 +651,7 @@ def run_case(seed, k, scratch, verbose=False):
             return result
         desc["zooms_in_file"] = file_zooms
         models = {c: Model(kind, chroms[c], layout[c]) for c in chroms}
+        extreme = {c: bool(kind == "bigwig" and any(abs(it[2]) >= 1e29 for it in layout[c])) for c in chroms}
         ncalls = rng.randint(10, 18)
         calls = []
         zcache = {}
@@ -767,7 +791,18 @@ def run_case(seed, k, scratch, verbose=False):
                     if not np.all(backing[mask] == GARBAGE):
                         vs.append(("arr_wrote_outside_view", "%s:%s" % (kind, arr_mode), dict(backing=jarr(backing))))
                     got = np.array(view, dtype=np.float64)
-                vs += check_call(model, call, got, file_zooms)
+                if zoom_used and extreme[chrom]:
+                    # zoom summaries are f32 in the file: sums of +-3e38 overflow there, nothing to hold the
+                    # routine to (the call itself still had to return without a panic)
+                    bump("zoom_calls_unchecked_extreme_values")
+                else:
+                    def recall(oob2, _args=tuple(args), _kw=dict(kwargs)):
+                        kw = dict(_kw)
+                        kw.pop("arr", None)
+                        kw["oob"] = oob2
+                        return pybigtools.open(path).values(*_args, **kw)
+
+                    vs += check_call(model, call, got, file_zooms, recall)
             for (cls, site, extra) in vs:
                 key = (cls, site)
                 if key in seen_sig:
